@@ -1,4 +1,5 @@
-import SlugModel.Lemmas.TransEq
+import SlugModel.Lemmas.TrEq_joinSubPath
+import SlugModel.Lemmas.TrEq_normalizeSubpath
 /-!
 # C11 (tie by translation)
 
